@@ -12,6 +12,60 @@
 
 namespace AssignmentHandlers {
 
+// Stores an evaluated right-hand side in one struct member cell (a
+// struct_members entry or its flattened "obj.member" variable). The payload
+// goes to the field that readers of that member type use: str_value for
+// strings, float_value / double_value / quad_value for floating members,
+// value for everything else. The declared type of the cell is kept, so a
+// double member stays a double whatever the type of the right-hand side is.
+void store_typed_value_in_member_cell(Variable &cell,
+                                      const TypedValue &typed_value) {
+    if (typed_value.is_string()) {
+        cell.str_value = typed_value.string_value;
+        cell.type = TYPE_STRING;
+        cell.value = 0;
+        cell.float_value = 0.0f;
+        cell.double_value = 0.0;
+        cell.quad_value = 0.0L;
+        cell.is_assigned = true;
+        return;
+    }
+
+    TypeInfo cell_type = cell.type;
+    bool cell_is_floating = (cell_type == TYPE_FLOAT ||
+                             cell_type == TYPE_DOUBLE || cell_type == TYPE_QUAD);
+    bool cell_is_integral =
+        (cell_type == TYPE_TINY || cell_type == TYPE_SHORT ||
+         cell_type == TYPE_INT || cell_type == TYPE_LONG ||
+         cell_type == TYPE_CHAR || cell_type == TYPE_BOOL);
+    bool value_is_floating = typed_value.is_floating() ||
+                             typed_value.numeric_type == TYPE_FLOAT ||
+                             typed_value.numeric_type == TYPE_DOUBLE ||
+                             typed_value.numeric_type == TYPE_QUAD;
+
+    if (cell_is_floating || (!cell_is_integral && value_is_floating)) {
+        if (!cell_is_floating) {
+            // no usable declared type (e.g. generic member): take the
+            // type of the value
+            cell.type = (typed_value.numeric_type == TYPE_FLOAT ||
+                         typed_value.numeric_type == TYPE_QUAD)
+                            ? typed_value.numeric_type
+                            : TYPE_DOUBLE;
+        }
+        cell.float_value = static_cast<float>(typed_value.as_double());
+        cell.double_value = typed_value.as_double();
+        cell.quad_value = typed_value.as_quad();
+        cell.value = static_cast<int64_t>(typed_value.as_double());
+    } else {
+        cell.value = typed_value.is_numeric() ? typed_value.as_numeric()
+                                              : typed_value.value;
+        if (!cell_is_integral) {
+            cell.type = typed_value.numeric_type;
+        }
+    }
+    cell.is_assigned = true;
+}
+
 void execute_member_assignment(StatementExecutor *executor,
                                Interpreter &interpreter, const ASTNode *node) {
     // obj.member = value または array[index].member = value の処理
@@ -113,23 +167,35 @@ void execute_member_assignment(StatementExecutor *executor,
         // メンバ名を取得
         std::string member_name = member_access->name;
 
-        // 右辺を評価
-        Variable new_value;
-        if (node->right->node_type == ASTNodeType::AST_STRING_LITERAL) {
-            new_value.str_value = node->right->str_value;
-            new_value.type = TYPE_STRING;
-        } else {
-            TypedValue typed_value =
-                interpreter.evaluate_typed(node->right.get());
-            new_value.value = typed_value.as_numeric();
-            new_value.type = typed_value.type.type_info;
-        }
-        new_value.is_assigned = true;
-
         // struct_membersに代入
         // v0.13.1: 参照がある場合はそれを使用
         auto &members = struct_var->get_struct_members();
-        members[member_name] = new_value;
+
+        // 右辺を評価
+        if (node->right->node_type == ASTNodeType::AST_STRING_LITERAL) {
+            Variable new_value;
+            new_value.str_value = node->right->str_value;
+            new_value.type = TYPE_STRING;
+            new_value.is_assigned = true;
+            members[member_name] = new_value;
+        } else {
+            TypedValue typed_value =
+                interpreter.evaluate_typed(node->right.get());
+            auto existing_it = members.find(member_name);
+            if (existing_it != members.end()) {
+                // 宣言された型を保ったまま値だけを書き換える
+                // （double / string の値が失われないようにする）
+                store_typed_value_in_member_cell(existing_it->second,
+                                                 typed_value);
+            } else {
+                Variable new_value;
+                new_value.type = typed_value.is_string()
+                                     ? TYPE_STRING
+                                     : typed_value.numeric_type;
+                store_typed_value_in_member_cell(new_value, typed_value);
+                members[member_name] = new_value;
+            }
+        }
 
         // 個別変数システムとの同期
         interpreter.sync_individual_member_from_struct(struct_var, member_name);
@@ -433,23 +499,35 @@ void execute_member_assignment(StatementExecutor *executor,
         // メンバ名を取得
         std::string member_name = member_access->name;
 
-        // 右辺を評価
-        Variable new_value;
-        if (node->right->node_type == ASTNodeType::AST_STRING_LITERAL) {
-            new_value.str_value = node->right->str_value;
-            new_value.type = TYPE_STRING;
-        } else {
-            TypedValue typed_value =
-                interpreter.evaluate_typed(node->right.get());
-            new_value.value = typed_value.as_numeric();
-            new_value.type = typed_value.type.type_info;
-        }
-        new_value.is_assigned = true;
-
         // struct_membersに代入
         // v0.13.1: 参照がある場合はそれを使用
         auto &members = struct_var->get_struct_members();
-        members[member_name] = new_value;
+
+        // 右辺を評価
+        if (node->right->node_type == ASTNodeType::AST_STRING_LITERAL) {
+            Variable new_value;
+            new_value.str_value = node->right->str_value;
+            new_value.type = TYPE_STRING;
+            new_value.is_assigned = true;
+            members[member_name] = new_value;
+        } else {
+            TypedValue typed_value =
+                interpreter.evaluate_typed(node->right.get());
+            auto existing_it = members.find(member_name);
+            if (existing_it != members.end()) {
+                // 宣言された型を保ったまま値だけを書き換える
+                // （double / string の値が失われないようにする）
+                store_typed_value_in_member_cell(existing_it->second,
+                                                 typed_value);
+            } else {
+                Variable new_value;
+                new_value.type = typed_value.is_string()
+                                     ? TYPE_STRING
+                                     : typed_value.numeric_type;
+                store_typed_value_in_member_cell(new_value, typed_value);
+                members[member_name] = new_value;
+            }
+        }
 
         // 個別変数システムとの同期
         interpreter.sync_individual_member_from_struct(struct_var, member_name);
@@ -560,19 +638,18 @@ void execute_member_assignment(StatementExecutor *executor,
                 }
             }
         } else {
+            // 文字列変数・double なども含め、右辺の型に応じたフィールドへ格納する
             TypedValue typed_value =
                 interpreter.evaluate_typed(node->right.get());
-            member_var.value = typed_value.value;
-            member_var.type = typed_value.numeric_type;
-            member_var.is_assigned = true;
+            store_typed_value_in_member_cell(member_var, typed_value);
 
             // v0.13.1: 参照変数自体のstruct_membersも更新（エイリアシング）
             auto &base_members = base_var->get_struct_members();
             auto ref_member_it = base_members.find(member_name);
-            if (ref_member_it != base_members.end()) {
-                ref_member_it->second.value = typed_value.value;
-                ref_member_it->second.type = typed_value.numeric_type;
-                ref_member_it->second.is_assigned = true;
+            if (ref_member_it != base_members.end() &&
+                &ref_member_it->second != &member_var) {
+                store_typed_value_in_member_cell(ref_member_it->second,
+                                                 typed_value);
             }
 
             // ダイレクトアクセス変数も更新
@@ -584,9 +661,7 @@ void execute_member_assignment(StatementExecutor *executor,
                 Variable *direct_var =
                     interpreter.find_variable(direct_var_name);
                 if (direct_var) {
-                    direct_var->value = typed_value.value;
-                    direct_var->type = typed_value.numeric_type;
-                    direct_var->is_assigned = true;
+                    store_typed_value_in_member_cell(*direct_var, typed_value);
                 }
             }
         }
